@@ -8,6 +8,8 @@
 (*   postaccept  after Close, Accept hands out what was queued and then end-of-stream               *)
 (*   postwrite / posthandshake after Close fail; blocked calls are released with the expected       *)
 (*               kind of error (want: end-of-stream by close, timeout by deadline)                  *)
+(*   read-after-close  end-of-stream is final: a locally closed handle / client keeps reporting it  *)
+(*               although the peer goes on sending                                                  *)
 (*   leak        no goroutine of the transport package is left after everything was closed          *)
 (* The design-level counterpart is HopConn.tla (SameResult, NothingLeft, Termination).              *)
 EXTENDS Integers, Sequences, TLC, Json
@@ -28,7 +30,7 @@ Good(e) ==
                 [] e.op = "accept-blocked" -> e.res = "eof"
                 [] e.op = "serve-returns" -> e.res = "ok"
                 [] e.op = "serve-again" -> e.res # "ok"
-                [] e.op \in {"read-blocked", "writes", "read-after-deadline-reset"} -> IF "want" \in DOMAIN e THEN Wanted(e) ELSE e.res = "eof"
+                [] e.op \in {"read-blocked", "writes", "read-after-deadline-reset", "read-after-close"} -> IF "want" \in DOMAIN e THEN Wanted(e) ELSE e.res = "eof"
                 [] e.op = "hclose" -> e.res = "ok"
                 [] e.op = "setup" -> FALSE
                 [] OTHER -> TRUE
